@@ -280,9 +280,9 @@ def path_band_edges(path):
     bs = []
     for e in path:
         if e['t'] == 'E':
-            bs += e['bands']
+            bs += e['bands'] + ([e['real']] if e.get('real') else [])
         elif e['t'] == 'M':
-            bs += e['bands'] + [s['bands'][0] for s in e['subs']]
+            bs += e['bands'] + [s['bands'][0] for s in e['subs']] + [s['real'] for s in e['subs'] if s.get('real')]
     return bs
 
 
@@ -928,8 +928,8 @@ def elem_keeps(d, c):
     if d['t'] == 'P':
         return True
     if d['t'] == 'E':
-        return fits(c, d['bands'][0])
-    return any(fits(c, s['bands'][0]) for s in d['subs'])
+        return fits(c, d.get('real') or d['bands'][0])
+    return any(fits(c, s.get('real') or s['bands'][0]) for s in d['subs'])
 
 
 def oracle(case, line, obs):
@@ -1193,7 +1193,27 @@ def gen_net(rng):
         multi = {'amps': [{'t': 'M', 'v': mv, 'sub': list(multis[mv])} for _ in range(2)], 'len': [60, 80]}
         pair = [wide, multi] if rng.random() < 0.5 else [multi, wide]
         segs = pair + segs[:rng.choice([0, 0, 1])]
-    return {'lib': lib, 'multis': multis, 'segs': segs}
+    out = {'lib': lib, 'multis': multis, 'segs': segs}
+    if rng.random() < 0.3:
+        # an auto-designed multi-band OMS: Multiband_amplifier elements without type_variety / amplifiers; the user
+        # gives the design bands of the degree, narrower than / equal to / wider than the bands of the amplifiers
+        # the library offers (shipped multiband types and, half of the time, the generated ones)
+        out['design_lib'] = rng.random() < 0.5
+        cands = [([191250 * G, 196150 * G], [186550 * G, 190050 * G])]
+        if out['design_lib']:
+            cands += [(lib[m[0]], lib[m[1]]) for m in multis.values()]
+        cb, lb = rng.choice(cands)
+
+        def shrink(b):
+            d = [0, 0, 50 * G, 50 * G, 150 * G, 450 * G, 25 * G + 1, -50 * G]
+            return [b[0] + rng.choice(d), b[1] - rng.choice(d)]
+        pdb = [list(cb), list(lb)] if rng.random() < 0.25 else [shrink(cb), shrink(lb)]
+        rng.shuffle(pdb)
+        n = rng.choice([2, 3, 4])
+        auto = {'amps': [{'t': 'A'} for _ in range(n)], 'len': [rng.choice([60, 80, 100]) for _ in range(n)], 'pdb': pdb}
+        u = rng.random()
+        out['segs'] = [auto] if u < 0.4 else ([auto] + segs[:1] if u < 0.7 else segs[:1] + [auto])
+    return out
 
 
 _EQ_JSON = None
@@ -1215,15 +1235,21 @@ def build_net(desc):
     from gnpy.tools.worker_utils import designed_network
     from gnpy.topology.request import compute_constrained_path
     eqj = base_eq_json()
+    dl = bool(desc.get('design_lib'))
     for name, (lo, hi) in desc['lib'].items():
-        eqj['Edfa'].append(amp_variety(name, lo, hi))
+        eqj['Edfa'].append(amp_variety(name, lo, hi, design=dl))
     for name, amps in desc['multis'].items():
-        eqj['Edfa'].append({'type_variety': name, 'type_def': 'multi_band', 'amplifiers': amps, 'allowed_for_design': False})
+        eqj['Edfa'].append({'type_variety': name, 'type_def': 'multi_band', 'amplifiers': amps, 'allowed_for_design': dl})
     eq = _equipment_from_json(eqj, DEFAULT_EXTRA_CONFIG)
     db = [{'f_min': 191.3e12, 'f_max': 196.1e12, 'spacing': 50e9}]
     els = [{'uid': 'trx 0', 'type': 'Transceiver'}, {'uid': f'trx {len(desc["segs"])}', 'type': 'Transceiver'}]
     for r in range(len(desc['segs']) + 1):
-        els.append({'uid': f'roadm {r}', 'type': 'Roadm', 'params': {'target_pch_out_db': -20, 'design_bands': db}})
+        prm = {'target_pch_out_db': -20, 'design_bands': db}
+        if r < len(desc['segs']) and desc['segs'][r].get('pdb'):
+            # user-defined design bands of the degree towards an auto-designed multi-band line
+            prm['per_degree_design_bands'] = {f'amp {r}.0': [{'f_min': float(b[0]), 'f_max': float(b[1])}
+                                                             for b in desc['segs'][r]['pdb']]}
+        els.append({'uid': f'roadm {r}', 'type': 'Roadm', 'params': prm})
     conns = []
     chain = ['trx 0', 'roadm 0']
     for s, seg in enumerate(desc['segs']):
@@ -1231,6 +1257,8 @@ def build_net(desc):
             uid = f'amp {s}.{k}'
             if a['t'] == 'E':
                 els.append({'uid': uid, 'type': 'Edfa', 'type_variety': a['v'], 'operational': op()})
+            elif a['t'] == 'A':
+                els.append({'uid': uid, 'type': 'Multiband_amplifier'})       # amplifiers chosen by the auto-design
             else:
                 els.append({'uid': uid, 'type': 'Multiband_amplifier', 'type_variety': a['v'],
                             'amplifiers': [{'type_variety': v, 'operational': op()} for v in a['sub']]})
@@ -1283,10 +1311,13 @@ def describe_path(path):
     out = []
     for k, el in enumerate(path):
         if isinstance(el, Edfa):
-            out.append({'t': 'E', 'uid': k, 'bands': [[b['f_min'], b['f_max']] for b in el.params.bands], 'name': el.uid})
+            out.append({'t': 'E', 'uid': k, 'bands': [[b['f_min'], b['f_max']] for b in el.params.bands], 'name': el.uid,
+                        'real': [el.params.f_min, el.params.f_max], 'variety': el.params.type_variety})
         elif isinstance(el, Multiband_amplifier):
             out.append({'t': 'M', 'uid': k, 'bands': [[b['f_min'], b['f_max']] for b in el.params.bands], 'name': el.uid,
-                        'subs': [{'uid': 100 * k + j, 'bands': [[b['f_min'], b['f_max']] for b in a.params.bands]}
+                        'variety': el.params.type_variety,
+                        'subs': [{'uid': 100 * k + j, 'bands': [[b['f_min'], b['f_max']] for b in a.params.bands],
+                                  'real': [a.params.f_min, a.params.f_max], 'variety': a.params.type_variety}
                                  for j, a in enumerate(el.amplifiers.values())]})
         else:
             out.append({'t': 'P', 'uid': k, 'name': el.uid, 'cls': type(el).__name__})
